@@ -196,6 +196,15 @@ func runC12(c *core.Ctx) {
 			case 4:
 				ctx = r.Bytes(300)
 			}
+			if i%8 == 3 {
+				// blind-key bytes || 0x00 || context of exactly 2^k bytes, one less, one more
+				bl := len(new(big.Int).SetBytes(bkBytes).Bytes())
+				total := []int{64, 128, 255, 256, 512, 1023, 1024, 1025, 2048, 4096}[(i/8)%10]
+				if n := total - bl - 1 + (i/80)%3 - 1; n >= 0 {
+					ctx = r.Bytes(n)
+					c.Class("context_fills_power_of_two_input")
+				}
+			}
 			dl := c12DigestLens[(i/50)%len(c12DigestLens)]
 			if i%7 == 6 {
 				dl = r.IntN(129)
